@@ -277,3 +277,206 @@ def cmp(which):
                 alts.append(I('HD 2-12 signed compare via sign of (x&~y)|(~(x^y)&(x-y))', lt()))
         return alts
     return f
+
+
+# ---------------------------------------------------------------- C02 floating point
+def fop(name):
+    def f(ty, a, b):
+        return [P(name, T.raw_op(name, ty.bits, a, b))]
+    return f
+
+
+def fsqrt(ty, a):
+    return [P('sqrt', T.raw_op('sqrt', ty.bits, a))]
+
+
+def fneg(ty, a):
+    return [P('flip sign bit', T.fneg(a))]
+
+
+def fabs(ty, a):
+    return [P('clear sign bit', T.fabs(a))]
+
+
+def fcopysign(ty, a, b):
+    return [P('magnitude of x, sign bit of y', T.copysign(a, b))]
+
+
+def _fmul(ty, a, b):
+    return T.raw_op('fmul', ty.bits, a, b)
+
+
+def _fadd(ty, a, b):
+    return T.raw_op('fadd', ty.bits, a, b)
+
+
+def _fsub(ty, a, b):
+    return T.raw_op('fsub', ty.bits, a, b)
+
+
+def _fma(ty, a, b, c):
+    return T.raw_op('fma', ty.bits, a, b, c)
+
+
+def ffma(ty, a, b, c):
+    return [P('fused', _fma(ty, a, b, c)), P('mul then add', _fadd(ty, _fmul(ty, a, b), c))]
+
+
+def ffms(ty, a, b, c):
+    return [P('fused', _fma(ty, a, b, T.fneg(c))), P('mul then sub', _fsub(ty, _fmul(ty, a, b), c))]
+
+
+def ffnma(ty, a, b, c):
+    # -(x*y) + z
+    return [P('fused', _fma(ty, T.fneg(a), b, c)), P('fused', _fma(ty, a, T.fneg(b), c)),
+            P('z - x*y', _fsub(ty, c, _fmul(ty, a, b))),
+            P('-(x*y) + z', _fadd(ty, T.fneg(_fmul(ty, a, b)), c)),
+            P('(-x)*y + z', _fadd(ty, _fmul(ty, T.fneg(a), b), c))]
+
+
+def ffnms(ty, a, b, c):
+    # -(x*y) - z
+    return [P('fused', _fma(ty, T.fneg(a), b, T.fneg(c))), P('fused', _fma(ty, a, T.fneg(b), T.fneg(c))),
+            P('-(x*y) - z', _fsub(ty, T.fneg(_fmul(ty, a, b)), c)),
+            P('(-x)*y - z', _fsub(ty, _fmul(ty, T.fneg(a), b), c)),
+            P('-(x*y + z)', T.fneg(_fadd(ty, _fmul(ty, a, b), c)))]
+
+
+def fminmax(which):
+    def f(ty, a, b):
+        n = 'x86.f' + which
+        lt = T.fcmp('olt', a, b) if which == 'min' else T.fcmp('olt', b, a)
+        return [P(n + '(x,y)', T.raw_op(n, ty.bits, a, b)), P(n + '(y,x)', T.raw_op(n, ty.bits, b, a)),
+                P('select(x<y)', T.sel(lt, a, b)), P('select(y<x)', T.sel(T.fcmp('olt', b, a) if which == 'min' else T.fcmp('olt', a, b), b, a))]
+    return f
+
+
+def finf(ty):
+    return K(ty, 0x7f800000 if ty.bits == 32 else 0x7ff0000000000000)
+
+
+def fisnan(ty, a):
+    return [P('x unordered with itself', T.fcmp('uno', a, a))]
+
+
+def fisinf(ty, a):
+    return [P('|x| == inf', T.fcmp('oeq', T.fabs(a), finf(ty)))]
+
+
+def fisfinite(ty, a):
+    return [P('x - x == 0', T.fcmp('oeq', _fsub(ty, a, a), K(ty, 0))),
+            P('|x| != inf and ordered', T.fcmp('one', T.fabs(a), finf(ty)))]
+
+
+def fone(ty):
+    return K(ty, 0x3f800000 if ty.bits == 32 else 0x3ff0000000000000)
+
+
+def fnan(ty):
+    return K(ty, 0x7fc00000 if ty.bits == 32 else 0x7ff8000000000000)
+
+
+def nan_consts(ty):
+    # any NaN bit pattern is "NaN": the library's own constant is all-ones
+    return [K(ty, -1), fnan(ty)]
+
+
+def fsign(ty, a):
+    z = K(ty, 0)
+    one = fone(ty)
+    res = _fsub(ty, T.sel(T.fcmp('ogt', a, z), one, z), T.sel(T.fcmp('olt', a, z), one, z))
+    return [P('nan ? nan : (x>0)-(x<0)', T.sel(T.fcmp('uno', a, a), n, res)) for n in nan_consts(ty)]
+
+
+def fsignnz(ty, a):
+    # +-1 with the sign bit of x
+    return [P('1.0 | signbit(x)', T.copysign(fone(ty), a))] + \
+        [P('nan ? nan : 1.0 | signbit(x)', T.sel(T.fcmp('uno', a, a), n, T.copysign(fone(ty), a))) for n in nan_consts(ty)]
+
+
+def fbitofsign(ty, a):
+    return [P('x & signmask', T.cat(T.const(ty.bits - 1, 0), T.topbit(a)))]
+
+
+# ---------------------------------------------------------------- C08 rounding
+_ROUND_IMM = {'nearbyint': (0, 4, 8, 12), 'rint': (0, 4, 8, 12), 'floor': (9, 1), 'ceil': (10, 2), 'trunc': (11, 3)}
+
+
+def rounding(which):
+    def f(ty, a):
+        alts = [P('llvm.' + which, T.raw_op(which, ty.bits, a))]
+        if which == 'rint':
+            alts.append(P('llvm.nearbyint', T.raw_op('nearbyint', ty.bits, a)))
+        if which == 'nearbyint':
+            alts.append(P('llvm.rint', T.raw_op('rint', ty.bits, a)))
+        for imm in _ROUND_IMM[which]:
+            alts.append(P('roundp%s imm %d' % ('s' if ty.bits == 32 else 'd', imm), T.raw_op('x86.round', ty.bits, a, attrs=(imm,))))
+        emul = {'trunc': trunc_emul, 'ceil': ceil_emul, 'floor': floor_emul, 'nearbyint': nearbyint_emul, 'rint': nearbyint_emul}[which]
+        alts.extend(emul(ty, a))
+        return alts
+    return f
+
+
+# reviewed emulations of the rounding functions (SSE2..SSSE3 have no ROUNDPS/PD)
+def _f2k(ty, k):
+    """bit pattern of 2.0**k"""
+    if ty.bits == 32:
+        return K(ty, (127 + k) << 23)
+    return K(ty, (1023 + k) << 52)
+
+
+def _neg_const(ty, c):
+    return T.fneg(c)
+
+
+def _trunc_emul(ty, a):
+    """x if |x| >= 2^k else float(int(x))  --  correct for every guard 2^k with mant <= k <= intbits-1:
+    below 2^k the truncating conversion is exact and in range, from 2^mant on every value is an integer.
+    (sign of a zero result is +0: left unspecified by the property)"""
+    mant, top = (23, 31) if ty.bits == 32 else (52, 63)
+    cvt = 'x86.cvttps2dq' if ty.bits == 32 else None
+    outs = []
+    for k in range(mant, top + 1):
+        guard = T.fcmp('olt', T.fabs(a), _f2k(ty, k))
+        convs = []
+        if ty.bits == 32:
+            convs.append(T.raw_op('sitofp', 32, T.raw_op('x86.cvttps2dq', 32, a), attrs=32))
+            convs.append(T.raw_op('sitofp', 32, T.raw_op('fptosi', 32, a, attrs=32), attrs=32))
+        else:
+            convs.append(T.raw_op('sitofp', 64, T.raw_op('fptosi', 64, a, attrs=64), attrs=64))
+        for c in convs:
+            outs.append((k, T.sel(guard, c, a)))
+    return outs
+
+
+def trunc_emul(ty, a):
+    return [I('|x|<2^%d ? float(int(x)) : x' % k, t) for (k, t) in _trunc_emul(ty, a)]
+
+
+def ceil_emul(ty, a):
+    one = fone(ty)
+    return [I('t=trunc(x); t<x ? t+1 : t  (guard 2^%d)' % k, T.sel(T.fcmp('olt', t, a), _fadd(ty, t, one), t)) for (k, t) in _trunc_emul(ty, a)]
+
+
+def floor_emul(ty, a):
+    one = fone(ty)
+    mone = T.fneg(one)
+    out = []
+    for (k, t) in _trunc_emul(ty, a):
+        c = T.fcmp('ogt', t, a)
+        out.append(I('t=trunc(x); t>x ? t-1 : t  (guard 2^%d)' % k, T.sel(c, _fadd(ty, t, mone), t)))
+        out.append(I('t=trunc(x); t>x ? t-1 : t  (guard 2^%d)' % k, T.sel(c, _fsub(ty, t, one), t)))
+    return out
+
+
+def nearbyint_emul(ty, a):
+    """s=sign(x); v=|x|; v<2^mant ? (v+2^mant)-2^mant : v; xor s  -- in round-to-nearest-even the sum has
+    ulp 1, so it is v rounded to an integer with ties to even; the constant must be exactly 2^mant."""
+    mant = 23 if ty.bits == 32 else 52
+    t2n = _f2k(ty, mant)
+    v = T.fabs(a)
+    out = []
+    for d in (_fadd(ty, _fadd(ty, v, t2n), T.fneg(t2n)), _fsub(ty, _fadd(ty, v, t2n), t2n)):
+        r = T.sel(T.fcmp('olt', v, t2n), d, v)
+        out.append(I('(|x|+2^%d)-2^%d with sign restored' % (mant, mant), T.xor(T.cat(T.const(ty.bits - 1, 0), T.topbit(a)), r)))
+    return out
